@@ -165,18 +165,24 @@ theorem bound_validations :
     have h : ∀ b, Gen.Config.vMaxTime b true = boundShape true b := by intro b; cases b <;> rfl
     simp [tagFail, h]
 
-/-- the helpers: results are (actual, check, ok) in that order; `check` is parsed from the tag's parameter, `actual` is the
-field's value asserted to the type, `ok` the outcome of that assertion (a parameter that does not parse leaves `ok` false);
-x0 the value, x1 the tag's parameter, x2 actual (result #0), x3 check (result #1), x4 ok (result #2) -/
+/-- the helpers, by what they RETURN (round 4: read by symbolic execution of the body, so an early return, an else branch,
+the type assertion before or after the parse, renamed locals all give the same facts): results are (actual, check, ok);
+`ok` is true exactly when the tag's parameter parsed (`err == nil`) AND the field's value has the expected type; whenever
+`ok` can be true, `actual` is the field's value asserted to the type and `check` is what was parsed from the parameter -/
 theorem bound_helpers :
-    Gen.Config.timeHelperParams = ["x0 interface{}", "x1 string"] ∧
-    Gen.Config.timeHelperResults = ["x2 time.Duration", "x3 time.Duration", "x4 bool"] ∧
-    Gen.Config.timeHelperStmts = ["x3, x5 := time.ParseDuration(x1)", "if x5 != nil {", "return", "}",
-      "x2, x4 = x0.(time.Duration)", "return"] ∧
-    Gen.Config.sizeHelperParams = ["x0 interface{}", "x1 string"] ∧
-    Gen.Config.sizeHelperResults = ["x2 datasize.ByteSize", "x3 datasize.ByteSize", "x4 bool"] ∧
-    Gen.Config.sizeHelperStmts = ["x5 := x3.UnmarshalText([]byte(x1))", "if x5 != nil {", "return", "}",
-      "x2, x4 = x0.(datasize.ByteSize)", "return"] := ⟨rfl, rfl, rfl, rfl, rfl, rfl⟩
+    Gen.Config.timeHelperParams = ["interface{}", "string"] ∧
+    Gen.Config.timeHelperResults = ["time.Duration", "time.Duration", "bool"] ∧
+    Gen.Config.timeHelperOkAtoms = ["eqnil:time.ParseDuration(arg1)#1", "var:arg0.(time.Duration)#1"] ∧
+    (∀ parsed isDur, Gen.Config.timeHelperOk parsed isDur = (parsed && isDur)) ∧
+    Gen.Config.timeHelperWhenOk = ["arg0.(time.Duration)#0", "time.ParseDuration(arg1)#0"] ∧
+    Gen.Config.sizeHelperParams = ["interface{}", "string"] ∧
+    Gen.Config.sizeHelperResults = ["datasize.ByteSize", "datasize.ByteSize", "bool"] ∧
+    Gen.Config.sizeHelperOkAtoms = ["eqnil:([]byte(arg1)).UnmarshalText#0", "var:arg0.(datasize.ByteSize)#1"] ∧
+    (∀ parsed isSize, Gen.Config.sizeHelperOk parsed isSize = (parsed && isSize)) ∧
+    Gen.Config.sizeHelperWhenOk = ["arg0.(datasize.ByteSize)#0", "([]byte(arg1)).UnmarshalText!recv"] := by
+  refine ⟨rfl, rfl, rfl, ?_, rfl, rfl, rfl, rfl, ?_, rfl⟩
+  · intro a b; cases a <;> cases b <;> rfl
+  · intro a b; cases a <;> cases b <;> rfl
 
 /-- `URLPathStringValidation` is the match of the value against this regular expression (`urlPathOk` is its language:
 one or more `/segment`, segments non-empty, of the listed characters); a string validation of a non-string field fails -/
@@ -257,5 +263,74 @@ theorem cast_table :
 theorem discard_eq :
     Gen.Config.discardKey = "discard_overflow" ∧ Gen.Config.discardDefault = discardDefault ∧
     Gen.Config.discardBeforeDecode = true := ⟨rfl, rfl, rfl⟩
+
+/-- the calls of one function of core/plugin (regenerated: callee(argument types) @closure depth [if guards], sorted) -/
+def pluginCallsOf (f : String) : List String :=
+  ((Gen.Config.pluginCalls.find? (fun r => r.1 == f)).map (·.2)).getD []
+
+/-- does some call of `f` start with `pre` and run at closure depth `d` (0 = when `f` runs, 1 = when the closure /
+factory that `f` returns is called)? -/
+def pluginIsPre : List Char → List Char → Bool
+  | [], _ => true
+  | _ :: _, [] => false
+  | a :: p, b :: s => a == b && pluginIsPre p s
+
+def pluginHasInfix (p : List Char) : List Char → Bool
+  | [] => p.isEmpty
+  | c :: s => pluginIsPre p (c :: s) || pluginHasInfix p s
+
+def pluginCallAt (f pre : String) (d : String) : Bool :=
+  (pluginCallsOf f).any fun c =>
+    pluginIsPre pre.toList c.toList && pluginHasInfix (" @".toList ++ d.toList) c.toList
+
+/-- **core/plugin as the `plugin` case of `decode`, `DVal.plugin` / `.factory` and `C17_plugin_instance_config` assume it**
+(round 4; was tied by the probe plugins only).  Every `Get` builds a NEW default config (`new()` calls the registered
+default-config constructor whenever it runs, and `Get` calls `new()` whenever a config is required) and runs `fillConf` on
+it when there is one; `Registry.New` hands what `Get` returned to the registered constructor at once; `Registry.NewFactory`
+wraps `Get(fillConf)` in a closure (depth 1) when the plugin takes a config and otherwise still runs `fillConf` on an empty
+struct at once (an unknown key below a plugin without config is reported); a constructor that builds a PLUGIN runs that
+closure at every factory call, inside the factory (depth 1: the config is filled at the call, fresh for every instance —
+`late` errors of the model), a constructor that builds a FACTORY runs it once, before the factory exists (depth 0: errors
+at decode time). -/
+theorem plugin_registry :
+    pluginCallsOf "defaultConfigContainer.new" = ["defaultConfigContainer.newValue.Call(nil) @0"] ∧
+    pluginCallsOf "defaultConfigContainer.Get" =
+      ["defaultConfigContainer.new() @0 if defaultConfigContainer.configRequired()",
+       "func(interface{}) error(interface{}) @0 if func(interface{}) error != nil"] ∧
+    pluginCallsOf "Registry.New" =
+      ["Registry.get(reflect.Type, string) @0", "nameRegistryEntry.constructor.NewPlugin([]reflect.Value) @0",
+       "nameRegistryEntry.defaultConfig.Get(func(interface{}) error) @0"] ∧
+    pluginCallsOf "Registry.NewFactory" =
+      ["Registry.get(reflect.Type, string) @0",
+       "func(interface{}) error(&struct{}{}) @0 if !(nameRegistryEntry.defaultConfig.configRequired()) && func(interface{}) error != nil",
+       "nameRegistryEntry.constructor.NewFactory(reflect.Type, func() ([]reflect.Value, error)) @0",
+       "nameRegistryEntry.defaultConfig.Get(func(interface{}) error) @1"] ∧
+    pluginCallsOf "pluginConstructor.NewPlugin" = ["pluginConstructor.newPlugin.Call([]reflect.Value) @0"] ∧
+    pluginCallsOf "pluginConstructor.NewFactory" =
+      ["func() ([]reflect.Value, error)() @1 if func() ([]reflect.Value, error) != nil",
+       "pluginConstructor.newPlugin.Call([]reflect.Value) @1"] ∧
+    pluginCallsOf "factoryConstructor.NewPlugin" =
+      ["factoryConstructor.callNewFactory([]reflect.Value) @0", "reflect.Value.Call(nil) @0"] ∧
+    pluginCallsOf "factoryConstructor.NewFactory" =
+      ["factoryConstructor.callNewFactory([]reflect.Value) @0",
+       "func() ([]reflect.Value, error)() @0 if func() ([]reflect.Value, error) != nil", "reflect.Value.Call(nil) @1"] ∧
+    pluginCallsOf "factoryConstructor.callNewFactory" = ["factoryConstructor.newFactory.Call([]reflect.Value) @0"] := by
+  decide
+
+set_option maxRecDepth 8000 in
+/-- the reading of `plugin_registry` the model uses: where the config of an instance is filled -/
+theorem plugin_fill_time :
+    -- a plugin constructor behind a factory: filled inside the factory, at every call
+    pluginCallAt "pluginConstructor.NewFactory" "func() ([]reflect.Value, error)()" "1" = true ∧
+    pluginCallAt "pluginConstructor.NewFactory" "func() ([]reflect.Value, error)()" "0" = false ∧
+    -- a factory constructor: filled once, when the factory is created
+    pluginCallAt "factoryConstructor.NewFactory" "func() ([]reflect.Value, error)()" "0" = true ∧
+    pluginCallAt "factoryConstructor.NewFactory" "func() ([]reflect.Value, error)()" "1" = false ∧
+    -- the closure NewFactory hands down fills a new default config at every run; New fills at once
+    pluginCallAt "Registry.NewFactory" "nameRegistryEntry.defaultConfig.Get(" "1" = true ∧
+    pluginCallAt "Registry.New" "nameRegistryEntry.defaultConfig.Get(" "0" = true ∧
+    pluginCallAt "defaultConfigContainer.Get" "defaultConfigContainer.new()" "0" = true ∧
+    pluginCallAt "defaultConfigContainer.new" "defaultConfigContainer.newValue.Call(nil)" "0" = true := by
+  decide
 
 end Pandora.Bridge.Config
